@@ -300,7 +300,7 @@ def main(tier, replay=None):
                 if line.strip():
                     cases.append(("corpus", json.loads(line)))
         genfile = os.path.join(d, "gen.jsonl")
-        ngen = 2500 if thorough else 220
+        ngen = 2000 if thorough else 220
         rc, out = run([hbin, "gen", str(sd), str(ngen), "10" if thorough else "9", genfile], timeout=600)
         if rc != 0:
             res.violation("harness c04 gen crashed", {"kind": "harness", "log": out[-2000:]}, no_failing_input=True)
